@@ -1,7 +1,228 @@
-//! Vector kinds beyond decode / encode / session.
+//! Vector kinds beyond decode / encode / session: label comparison (C16), registries (C17),
+//! fixed points (C07), one-item discipline (C13), key canonicalisation (C20).
+use crate::abs::*;
+use crate::iana_tab::{with_registry, Reg, RegVisitor};
+use crate::judge::*;
+use crate::machine::*;
 use crate::runner::Ctx;
-use serde_json::Value as J;
+use crate::{reader, unproj};
+use coset::iana::WithPrivateRange;
+use coset::*;
+use serde_json::{json, Value as J};
+use std::cmp::Ordering;
+use std::collections::BTreeSet;
+use std::panic::{catch_unwind, AssertUnwindSafe};
 
-pub fn run_other(ctx: &mut Ctx, kind: &str, _v: &J) {
-    ctx.harness_error(format!("unknown vector kind {}", kind));
+fn ord(o: Ordering) -> i64 {
+    match o {
+        Ordering::Less => -1,
+        Ordering::Equal => 0,
+        Ordering::Greater => 1,
+    }
+}
+
+fn prop_of(v: &J) -> String {
+    v["props"][0].as_str().unwrap_or("").to_string()
+}
+
+/// everything the crate can say about two values of an ordered type
+struct Pair {
+    cmp: i64,
+    rev: i64,
+    partial: Option<i64>,
+    eq: bool,
+    canon: Option<i64>,
+}
+
+fn pair_of<T: Ord + PartialEq>(a: &T, b: &T, canon: Option<i64>) -> Pair {
+    Pair { cmp: ord(a.cmp(b)), rev: ord(b.cmp(a)), partial: a.partial_cmp(b).map(ord), eq: a == b, canon }
+}
+
+struct CmpV<'a>(&'a J, &'a J, bool);
+impl<'a> RegVisitor for CmpV<'a> {
+    type Out = Result<Pair, String>;
+    fn visit<T: Reg>(self) -> Self::Out {
+        let (a, b) = (unproj::reglabel::<T>(self.0)?, unproj::reglabel::<T>(self.1)?);
+        Ok(pair_of(&a, &b, None))
+    }
+    fn visit_priv<T: Reg + WithPrivateRange>(self) -> Self::Out {
+        if self.2 {
+            let (a, b) = (unproj::regpriv::<T>(self.0)?, unproj::regpriv::<T>(self.1)?);
+            Ok(pair_of(&a, &b, None))
+        } else {
+            let (a, b) = (unproj::reglabel::<T>(self.0)?, unproj::reglabel::<T>(self.1)?);
+            Ok(pair_of(&a, &b, None))
+        }
+    }
+}
+
+fn run_cmp(ctx: &mut Ctx, v: &J) {
+    let p = prop_of(v);
+    ctx.evaluations += 1;
+    let h = crate::runner::hash_pub(&json!([v["lty"], v["reg"], v["a"], v["b"]]));
+    ctx.distinct.insert(h);
+    if v["a"] != v["b"] {
+        ctx.nontrivial.insert(h);
+    }
+    let lty = v["lty"].as_str().unwrap_or("");
+    let r = catch_unwind(AssertUnwindSafe(|| -> Result<Pair, String> {
+        if lty == "Label" {
+            let (a, b) = (unproj::label(&v["a"])?, unproj::label(&v["b"])?);
+            let c = ord(a.cmp_canonical(&b));
+            Ok(pair_of(&a, &b, Some(c)))
+        } else {
+            with_registry(v["reg"].as_str().unwrap_or(""), CmpV(&v["a"], &v["b"], lty == "RegisteredLabelWithPrivate"))
+                .ok_or("unknown registry")?
+        }
+    }));
+    let pr = match r {
+        Ok(Ok(p)) => p,
+        Ok(Err(e)) => {
+            ctx.harness_error(format!("cmp: {}", e));
+            return;
+        }
+        Err(_) => {
+            ctx.mismatch(&p, v, "panic", json!({}));
+            return;
+        }
+    };
+    ctx.judged += 1;
+    let ex = &v["expect"];
+    let want = ex["cmp"].as_i64().unwrap_or(9);
+    if pr.cmp != want {
+        ctx.mismatch(&p, v, "cmp-differs-from-encoded-order", json!({"got": pr.cmp, "want": want}));
+        return;
+    }
+    if pr.rev != -want {
+        ctx.mismatch(&p, v, "cmp-not-antisymmetric", json!({"ab": pr.cmp, "ba": pr.rev}));
+        return;
+    }
+    if pr.partial != Some(want) {
+        ctx.mismatch(&p, v, "partial_cmp-differs", json!({"got": pr.partial, "want": want}));
+        return;
+    }
+    let weq = ex["eq"].as_bool().unwrap_or(false);
+    if pr.eq != weq || (pr.cmp == 0) != pr.eq {
+        ctx.mismatch(&p, v, "order-inconsistent-with-equality", json!({"eq": pr.eq, "cmp": pr.cmp, "want_eq": weq}));
+        return;
+    }
+    if let Some(c) = pr.canon {
+        let wc = ex["canon"].as_i64().unwrap_or(9);
+        if c != wc {
+            ctx.mismatch(&p, v, "cmp_canonical-differs-from-length-first-order", json!({"got": c, "want": wc}));
+        }
+    }
+}
+
+/// order laws and sorted-container behaviour on a whole list
+fn laws<T: Ord + Clone + PartialEq>(xs: &[T]) -> Option<String> {
+    let n = xs.len();
+    for i in 0..n {
+        if xs[i].cmp(&xs[i]) != Ordering::Equal {
+            return Some(format!("not reflexive at {}", i));
+        }
+        for j in 0..n {
+            let (ab, ba) = (xs[i].cmp(&xs[j]), xs[j].cmp(&xs[i]));
+            if ab != ba.reverse() {
+                return Some(format!("not antisymmetric at {},{}", i, j));
+            }
+            if (ab == Ordering::Equal) != (xs[i] == xs[j]) {
+                return Some(format!("Equal <=> == fails at {},{}", i, j));
+            }
+            for k in 0..n {
+                if ab != Ordering::Greater && xs[j].cmp(&xs[k]) != Ordering::Greater && xs[i].cmp(&xs[k]) == Ordering::Greater {
+                    return Some(format!("not transitive at {},{},{}", i, j, k));
+                }
+            }
+        }
+    }
+    let set: BTreeSet<T> = xs.iter().cloned().collect();
+    if set.len() != n {
+        return Some(format!("sorted set holds {} of {} distinct labels", set.len(), n));
+    }
+    for (i, x) in xs.iter().enumerate() {
+        if !set.contains(x) {
+            return Some(format!("sorted set lost element {}", i));
+        }
+    }
+    None
+}
+
+struct SortV<'a>(&'a [J], bool);
+impl<'a> RegVisitor for SortV<'a> {
+    type Out = Result<(Vec<J>, Option<String>), String>;
+    fn visit<T: Reg>(self) -> Self::Out {
+        let mut xs = self.0.iter().map(unproj::reglabel::<T>).collect::<Result<Vec<_>, _>>()?;
+        let l = laws(&xs);
+        xs.sort();
+        Ok((xs.iter().map(crate::proj::reglabel).collect(), l))
+    }
+    fn visit_priv<T: Reg + WithPrivateRange>(self) -> Self::Out {
+        if self.1 {
+            let mut xs = self.0.iter().map(unproj::regpriv::<T>).collect::<Result<Vec<_>, _>>()?;
+            let l = laws(&xs);
+            xs.sort();
+            Ok((xs.iter().map(crate::proj::regpriv).collect(), l))
+        } else {
+            self.visit::<T>()
+        }
+    }
+}
+
+fn run_sort(ctx: &mut Ctx, v: &J) {
+    let p = prop_of(v);
+    ctx.evaluations += 1;
+    let h = crate::runner::hash_pub(&json!([v["lty"], v["reg"], v["items"]]));
+    ctx.distinct.insert(h);
+    ctx.nontrivial.insert(h);
+    let items = v["items"].as_array().cloned().unwrap_or_default();
+    let lty = v["lty"].as_str().unwrap_or("");
+    let r = catch_unwind(AssertUnwindSafe(|| -> Result<(Vec<J>, Option<Vec<J>>, Option<String>), String> {
+        if lty == "Label" {
+            let mut xs = items.iter().map(unproj::label).collect::<Result<Vec<_>, _>>()?;
+            let l = laws(&xs);
+            xs.sort();
+            let lex: Vec<J> = xs.iter().map(crate::proj::label).collect();
+            xs.reverse();
+            xs.sort_by(|a, b| a.cmp_canonical(b));
+            Ok((lex, Some(xs.iter().map(crate::proj::label).collect()), l))
+        } else {
+            let (lex, l) = with_registry(v["reg"].as_str().unwrap_or(""), SortV(&items, lty == "RegisteredLabelWithPrivate"))
+                .ok_or("unknown registry")??;
+            Ok((lex, None, l))
+        }
+    }));
+    match r {
+        Ok(Ok((lex, canon, l))) => {
+            ctx.judged += 1;
+            if let Some(msg) = l {
+                ctx.mismatch(&p, v, "order-law-violated", json!({"law": msg}));
+                return;
+            }
+            if !same(&J::Array(lex.clone()), &v["lex"]) {
+                ctx.mismatch(&p, v, "sort-order-differs-from-encoded-order", json!({"got": lex}));
+                return;
+            }
+            if let Some(c) = canon {
+                if !same(&J::Array(c.clone()), &v["canon"]) {
+                    ctx.mismatch(&p, v, "canonical-sort-order-differs", json!({"got": c}));
+                }
+            }
+        }
+        Ok(Err(e)) => ctx.harness_error(format!("sort: {}", e)),
+        Err(_) => ctx.mismatch(&p, v, "panic", json!({})),
+    }
+}
+
+pub fn run_other(ctx: &mut Ctx, kind: &str, v: &J) {
+    match kind {
+        "cmp" => run_cmp(ctx, v),
+        "sort" => run_sort(ctx, v),
+        _ => crate::runner3::run_other(ctx, kind, v),
+    }
+}
+
+#[allow(dead_code)]
+fn unused(_: &J) {
+    let _ = (reader::read_all(&[]), bytes_of(&json!([])), Machine::new().wire);
 }
